@@ -1371,6 +1371,14 @@ class TaskDispatcher(object):
                 )
 
                 """
+                After a restart the response to the original request may have
+                arrived (and been parked as an orphaned response) before this
+                redelivered Task registered its pending request, so make sure
+                the orphaned response handler is scheduled to pair them up.
+                """
+                self.schedule_orphaned_response_handler()
+
+                """
                 Actually invoke the Task by creating and publishing the request
                 Message and updating the Execution History and metrics.
 
